@@ -153,12 +153,15 @@ fn kernighan_lin_2_impl<T>(
         }
 
         // lookup for best cutsize
-        let (best_pos, best_cut) = cut_saves
+        let Some((best_pos, best_cut)) = cut_saves
             .iter()
             .cloned()
             .enumerate()
             .min_by(|(_, a), (_, b)| a.partial_cmp(b).unwrap())
-            .unwrap();
+        else {
+            // no swap was made during this pass
+            break;
+        };
 
         // rewind swaps
         tracing::info!(
